@@ -59,10 +59,12 @@ PROPS = {
     },
     "C01": {
         "module": "GoCo.Props.C01",
-        "theorems": ["GoCo.C01.C01_pass0", "GoCo.MG.p0Stmts_sem", "GoCo.C07.C07_eta_sound"],
+        "theorems": ["GoCo.C01.C01_partial", "GoCo.MG.compile_correct_partial", "GoCo.MG.compile_eta_correct_partial",
+                     "GoCo.MG.rwStmts_ok", "GoCo.MG.p3Thunk_sem", "GoCo.MG.p0Stmts_sem", "GoCo.MG.etaStmts_sem",
+                     "GoCo.C01.C01_cex_continue_yielding_post", "GoCo.MG.loop_closed", "GoCo.MG.loop_closed_ypost"],
         "corr": [("cc", "k4"), ("cc", "k5"), ("cc", "k6a"), ("cc", "k6b"), ("cc", "k6c")],
         "search": ["cc:k6a", "cc:k6d"],
-        "level_text": "Kernel-checked theorems about the Lean model of the rewriter (pass0 and eta-reduction preserve the coroutine semantics of every statement; pass2/pass3 theorem under construction, see DESIGN.md) over an executable semantics of mini-Go for source (Yield suspends) and target (seq combinators, Go's eager argument evaluation). The model's compile and optimize functions are tied to the real compiler by AST equality on every generated program (K4, K5), both semantics are tied to real executions (K6b: reference coroutine; K6c: the real generated code), and K6a compares the real compiled generator with the source on a goroutine-based reference coroutine under every truncation.",
+        "level_text": "Kernel-checked theorem compile_correct_partial: for EVERY generator body of the proved fragment (simple statements, blocks, if/else-if chains, for loops with yields in initialiser/body/post, break, continue, return; arbitrary nesting), every interpretation of its atoms, every store and loop budget, the thunk of the compiled body (pass0, pass2, pass3, eta-reduction of the Lean model of the rewriter) equals the source body run as a coroutine, as resumption trees. switch/fallthrough and the optimiser's Delay elision are outside the proved fragment (correspondences only); the full statement is false on this tree (kernel-checked counterexample D6). The theorems are over an executable semantics of mini-Go for source (Yield suspends) and target (seq combinators, Go's eager argument evaluation). The model's compile and optimize functions are tied to the real compiler by AST equality on every generated program (K4, K5), both semantics are tied to real executions (K6b: reference coroutine; K6c: the real generated code), and K6a compares the real compiled generator with the source on a goroutine-based reference coroutine under every truncation.",
         "level_note": CC_NOTE,
         "technique": "Lean 4 proofs over a model of the rewriter + AST-equality correspondence with the real compiler + run-vs-reference-coroutine oracle",
         "design_ref": "DESIGN.md 3.2, 6/C01",
@@ -89,5 +91,30 @@ PROPS = {
         "technique": "Lean 4 model of the rewriter with explicit error values + AST/panic-class correspondence with the real compiler + go build of every output",
         "design_ref": "DESIGN.md 6/C11",
         "modelled": "all assert/panic sites of rewriter/yield_rewrite.go, yield_block.go, return.go, etc.go reachable from the mode-A grammar",
+    },
+    "C02": {
+        "module": "GoCo.Props.C02",
+        "theorems": ["GoCo.C02.C02_start_runs_nothing_runtime", "GoCo.C02.C02_compile_shape", "GoCo.C02.C02_construct_pure",
+                     "GoCo.C02.C02_advance_lockstep", "GoCo.C02.C02_lockstep_partial", "GoCo.genRun_refines",
+                     "GoCo.MG.compile_correct_partial"],
+        "corr": [("k1", None), ("cc", "k6a"), ("cc", "k6b"), ("cc", "k6c"), ("cc", "k5"), ("cc", "k6d")],
+        "search": ["cc:k6a", "cc:k6d"],
+        "level_text": "Kernel-checked: constructing a compiled iterator evaluates nothing (every accepted body compiles to return Start(Delay(thunk))); the store is part of every node of the resumption trees, so the tree equality of compile_correct_partial (compiler, proved fragment) and the generator-object refinement (runtime, all terms and histories) state that each advance runs exactly the source statements up to the next yield. Correspondences compare interleaved effect/consumer traces (markers M, Y, END between atom events) of the real compiled code with a goroutine-based reference coroutine, which covers every truncation point including calls after exhaustion.",
+        "level_note": CC_NOTE + " " + RT_NOTE,
+        "technique": "Lean 4 proofs (compile correctness as resumption-tree equality incl. stores; generator refinement) + trace correspondence with markers against a reference coroutine",
+        "design_ref": "DESIGN.md 6/C02",
+        "modelled": "seq/seq.go (machine + generator object), rewriter passes; absence of background activity in seq is a source fact",
+    },
+    "C18": {
+        "module": "GoCo.Props.C18",
+        "theorems": ["GoCo.C18.C18_panic_surfaces", "GoCo.C18.C18_send_panic_surfaces", "GoCo.C18.C18_machine",
+                     "GoCo.C18.C18_compiled_panics_partial", "GoCo.machine_refines_ref", "GoCo.genStep_refines"],
+        "corr": [("k1", None), ("cc", "k6a"), ("cc", "k6b"), ("cc", "k6c")],
+        "search": ["cc:k6a"],
+        "level_text": "Kernel-checked: resumption trees carry panic leaves; the machine model of seq.go reaches the panicking configuration exactly where the reference has the leaf, the consumer call observing it gets the original value and the iterator is left as before; compile_correct_partial is an equality of trees with panic leaves, so a panic at any statement position of the proved fragment sits at the same position of the compiled iterator. K1 runs panicking thunks/conditions/posts at every position of small terms; K6 runs panicking atoms (P(n), panic(PV(n)), fuel exhaustion at arbitrary atoms) in compiled code against the reference coroutine.",
+        "level_note": CC_NOTE + " " + RT_NOTE,
+        "technique": "Lean 4 proofs (panic leaves in refinement and compile correctness) + differential runs with panicking atoms",
+        "design_ref": "DESIGN.md 6/C18",
+        "modelled": "Go panics as a result value of thunks/conditions/atoms; recover is absent from seq (source fact)",
     },
 }
